@@ -122,21 +122,30 @@ class PipeShape(Shape):
         if not self.use_cli:
             return None
         o = self.case.run_cli(model)
-        return {'kind': o.kind, 'image': o.image}
+        d = {'kind': o.kind, 'image': o.image}
+        if self.params.get('also_json'):
+            j = self.case.run_cli(model, config_json=True)      # the same definition written as JSON
+            d['as_json'] = {'kind': j.kind, 'image': j.image}
+        return d
 
     def cli_agrees(self, summary, cli):
         return summary['kind'] == cli['kind'] and summary['image'] == cli['image']
 
     def judge_cli(self, summary, cli):
         """C14 at the level where it is stated - the command line: exit status versus the image file"""
+        extra = {}
+        if cli.get('as_json') is not None:
+            extra[f"{self.params.get('props', ['C19'])[0]}.definition_written_as_json_is_treated_like_the_yaml_one"] = \
+                (cli['as_json']['kind'], cli['as_json']['image']) == (cli['kind'], cli['image'])
         if 'C14' not in self.params.get('props', []):
-            return {}
+            return extra
         binary = self.params.get('binary', True)
         return {
             'C14.command_line_does_not_report_success_when_assembly_failed': not (cli['kind'] == 'ok' and summary['kind'] != 'ok'),
             'C14.image_exists_when_the_command_line_reports_success': not (cli['kind'] == 'ok' and binary and cli['image'] is None
                                                                              and summary['image'] is not None),
             'C14.no_image_when_the_command_line_reports_failure': not (cli['kind'] != 'ok' and cli['image'] is not None),
+            **extra,
         }
 
     def write_replay(self, model, dest):
